@@ -8,7 +8,10 @@
 2. (A) every abstract crash state of the reader model (coredata.dat x cmd_line.txt in
    absent/full/empty/partial) is written to a real configured directory and the real follow-up
    `meson setup [--reconfigure]` is judged against RecoverOutcome (TraceBuildDirCrash, SpecReplay).
-   The same replay measures whether the real reader of cmd_line.txt is strict (model constant).
+   The same replay measures two constants of the reader model on the real code: whether a torn
+   cmd_line.txt makes it raise, and whether a first run reads the machine files back from it.
+   Options are judged in three classes: given with -D, set by a machine file (--native-file),
+   taken from the environment of the first run - the last two live in coredata.dat only.
 3. (B) recording: each mutating command of each history runs once under strace with its state files
    watched; the log becomes the operation script.  TLC runs the machine of BuildDirCrash over the
    recorded scripts (SpecModel): every prefix is crashed and recovered in the model, the protocol
@@ -54,7 +57,14 @@ LABELS = ['old', 'new', 'default']
 # ---------------------------------------------------------------------------
 # projects
 
-OPTIONS = "option('opt', type: 'string', value: 'd')\noption('other', type: 'string', value: 'keep')\n"
+OPTIONS = ("option('opt', type: 'string', value: 'd')\noption('other', type: 'string', value: 'keep')\n"
+           "option('mopt', type: 'string', value: 'md')\n")
+# a machine file: values that live in coredata.dat only (cmd_line.txt records just the path of the file)
+NATIVE_INI = "[project options]\nmopt = 'm'\n\n[built-in options]\nwarning_level = '3'\n"
+# option name -> where its value is recorded: d = -D (cmd_line.txt [options]), m = machine file, e = environment of the first run
+OPTION_CLASS = {'mopt': 'm', 'warning_level': 'm', 'pkg_config_path': 'e'}
+ENV_PC = 'env:PKG_CONFIG_PATH=/opt/c09/lib/pkgconfig'
+NF = '--native-file=@NATIVE@'
 PROJECTS = {
     # language-less: fastest (used with --backend=none)
     'plain': {'meson.build': "project('p')\nmessage('opt=' + get_option('opt'))\n", 'meson.options': OPTIONS},
@@ -80,6 +90,8 @@ class History(T.NamedTuple):
     pre: T.Tuple[T.Tuple[str, ...], ...]    # commands that build the pre-state (verb, args...)
     cmd: T.Tuple[str, ...]                  # the command under test
     failed: bool = False                    # the command fails by itself (only its final state is a crash state)
+    uses_m: bool = False                    # the pre-state / the command sets options through a machine file
+    uses_e: bool = False                    # the pre-state took an option from the environment of the first run
     quick: int = 0                          # quick tier: 0 = script laws + final state + flagged points, n = every n-th kill point too
 
 
@@ -99,17 +111,35 @@ HISTORIES = [
     History('ninja-fresh', 'c', 'setup', (), ('setup', '-Dopt=a')),
     History('ninja-reconf', 'c', 'reconfigure', (('setup', '-Dopt=a', '-Dother=x'),), ('setup', '--reconfigure', '-Dopt=b'), quick=0),
     History('ninja-wipe', 'c', 'wipe', (('setup', '-Dopt=a'), ('configure', '-Dother=y')), ('setup', '--wipe')),
+    # values that are *not* in cmd_line.txt [options]: set by a machine file / taken from the first run's environment
+    History('nf-fresh', 'plain', 'setup', (), ('setup', NONE, NF, '-Dopt=a'), uses_m=True),
+    History('nf-reconf', 'plain', 'reconfigure', (('setup', NONE, NF, '-Dopt=a', '-Dother=x'),), ('setup', '--reconfigure', '-Dopt=b'), uses_m=True),
+    History('nf-conf', 'plain', 'configure', (('setup', NONE, NF, '-Dopt=a'),), ('configure', '-Dopt=b'), uses_m=True),
+    History('nf-wipe', 'plain', 'wipe', (('setup', NONE, NF, '-Dopt=a'),), ('setup', '--wipe'), uses_m=True),
+    History('env-reconf', 'plain', 'reconfigure', ((ENV_PC, 'setup', NONE, '-Dopt=a'),), ('setup', '--reconfigure', '-Dopt=b'), uses_e=True),
+    History('env-conf', 'plain', 'configure', ((ENV_PC, 'setup', NONE, NF, '-Dopt=a'),), ('configure', '-Dopt=b'), uses_m=True, uses_e=True),
     History('fail-reconf', 'failable', 'reconfigure', (('setup', '-Dopt=a'),), ('setup', '--reconfigure', '-Dopt=bad'), failed=True),
     History('fail-fresh', 'failable', 'setup', (), ('setup', '-Dopt=bad'), failed=True),
 ]
-QUICK_SET = ('setup-fresh', 'reconf-a', 'conf-a', 'wipe-a', 'ninja-reconf', 'fail-reconf')
+QUICK_SET = ('setup-fresh', 'reconf-a', 'conf-a', 'wipe-a', 'ninja-reconf', 'fail-reconf', 'nf-reconf', 'nf-wipe', 'env-conf')
 
 
 # ---------------------------------------------------------------------------
 # running meson
 
+def split_env(verb_args: T.Sequence[str]) -> T.Tuple[T.Dict[str, str], T.Tuple[str, ...]]:
+    """('env:K=V', ..., verb, args...) -> ({K: V}, (verb, args...))"""
+    env = {}
+    rest = list(verb_args)
+    while rest and rest[0].startswith('env:'):
+        k, v = rest.pop(0)[4:].split('=', 1)
+        env[k] = v
+    return env, tuple(rest)
+
+
 def meson_cmd(verb_args: T.Sequence[str], bdir: Path, src: Path) -> T.List[str]:
-    verb, args = verb_args[0], list(verb_args[1:])
+    verb_args = split_env(verb_args)[1]
+    verb, args = verb_args[0], [a.replace('@NATIVE@', str(src.parent / 'native.ini')) for a in verb_args[1:]]
     base = [common.PYTHON, str(common.REPO / 'meson.py')]
     if verb == 'setup':
         return base + ['setup'] + args + [str(bdir), str(src)]
@@ -124,14 +154,14 @@ def run_env(run: Path) -> T.Dict[str, str]:
               'PYTHONHASHSEED': '0', 'MESON_VERIF_C09_TMPNAMES': '1',
               # deterministic tempfile names inside the meson processes (see c09_site/sitecustomize.py)
               'PYTHONPATH': SITE_DIR + (os.pathsep + e['PYTHONPATH'] if e.get('PYTHONPATH') else '')})
-    for k in ('CC', 'CFLAGS', 'LDFLAGS', 'DESTDIR', 'MESON_PACKAGE_CACHE_DIR'):
+    for k in ('CC', 'CFLAGS', 'LDFLAGS', 'CPPFLAGS', 'DESTDIR', 'MESON_PACKAGE_CACHE_DIR', 'PKG_CONFIG_PATH', 'CMAKE_PREFIX_PATH'):
         e.pop(k, None)
     return e
 
 
-def run_cli(cmd: T.Sequence[str], run: Path) -> T.Tuple[int, str]:
+def run_cli(cmd: T.Sequence[str], run: Path, extra_env: T.Optional[T.Dict[str, str]] = None) -> T.Tuple[int, str]:
     try:
-        p = subprocess.run(list(cmd), env=run_env(run), stdout=subprocess.PIPE, stderr=subprocess.STDOUT,
+        p = subprocess.run(list(cmd), env=dict(run_env(run), **(extra_env or {})), stdout=subprocess.PIPE, stderr=subprocess.STDOUT,
                            timeout=CLI_TIMEOUT, text=True, errors='replace', stdin=subprocess.DEVNULL)
     except subprocess.TimeoutExpired as e:
         raise MachineryError('meson command timed out: ' + ' '.join(cmd)) from e
@@ -153,6 +183,7 @@ class World:
                 (d / rel).parent.mkdir(parents=True, exist_ok=True)
                 (d / rel).write_text(text)
             self.src[name] = d
+        (root / 'native.ini').write_text(NATIVE_INI)
 
     def new_run(self) -> Path:
         with self.lock:
@@ -168,7 +199,7 @@ def build_pre(w: World, h: History, run: Path) -> Path:
         if c[0] == 'mkdir':
             (bdir / c[1]).mkdir(parents=True)
             continue
-        rc, out = run_cli(meson_cmd(c, bdir, w.src[h.project]), run)
+        rc, out = run_cli(meson_cmd(c, bdir, w.src[h.project]), run, split_env(c)[0])
         if rc != 0:
             raise MachineryError(f'pre-history command of {h.id} failed: {c}\n{out[-1500:]}')
     return bdir
@@ -370,7 +401,8 @@ def record(w: World, h: History, defaults: T.Dict[str, T.Any]) -> Recorded:
         raise MachineryError(f'{h.id}: the pre-state holds a torn state file: {pre_proj}')
     if '.' in names and h.pre:
         pre.append({'f': '.', 'st': 'dir', 'ver': 'none'})
-    script = {'id': h.id, 'kind': h.kind, 'fresh': not (set(pre_files) & {CORE}), 'failed': h.failed, 'pre': pre, 'ops': ops}
+    script = {'id': h.id, 'kind': h.kind, 'fresh': not (set(pre_files) & {CORE}), 'failed': h.failed,
+              'usesM': h.uses_m, 'usesE': h.uses_e, 'pre': pre, 'ops': ops}
     shutil.rmtree(run, ignore_errors=True)
     return Recorded(h, script, points, names, watch, maps, rc)
 
@@ -380,12 +412,12 @@ def record(w: World, h: History, defaults: T.Dict[str, T.Any]) -> Recorded:
 
 def labels_of(vals: T.Optional[T.Dict[str, T.Any]], maps: T.Dict[str, T.Dict[str, T.Any]], fresh: bool) -> T.List[T.Dict[str, T.Any]]:
     out = []
-    for name in sorted(vals or {}, key=lambda n: (n not in ('opt', 'other', 'backend'), n)):
+    for name in sorted(vals or {}, key=lambda n: (n not in ('opt', 'other', 'backend') and n not in OPTION_CLASS, n)):
         v = (vals or {})[name]
         is_ = [lb for lb in LABELS if maps[lb].get(name, object()) == v]
         if fresh and 'default' in is_ and 'old' not in is_:
             is_.append('old')
-        out.append({'name': name, 'is': is_, 'value': json.dumps(v)})
+        out.append({'name': name, 'is': is_, 'cls': OPTION_CLASS.get(name, 'd'), 'value': json.dumps(v)})
     return out
 
 
@@ -434,7 +466,16 @@ def kill_case(w: World, rec: Recorded, k: int, keep: bool = False) -> T.Dict[str
 # ---------------------------------------------------------------------------
 # (A) abstract crash states of the reader model on the real code
 
-REPLAY_HISTORY = History('replay', 'plain', 'reconfigure', (('setup', NONE, '-Dopt=a', '-Dother=x'),), ('setup', '--reconfigure'))
+REPLAY_HISTORY = History('replay', 'plain', 'reconfigure', ((ENV_PC, 'setup', NONE, NF, '-Dopt=a', '-Dother=x'),), ('setup', '--reconfigure'),
+                         uses_m=True, uses_e=True)
+
+
+def reader_flags(rcases: T.Sequence[T.Dict[str, T.Any]], maps: T.Dict[str, T.Dict[str, T.Any]]) -> T.Tuple[bool, bool]:
+    """(StrictCmdline, FirstRunReadsCmdline) as the real reader behaves: does a zero-byte cmd_line.txt make the
+    follow-up fail; does a first configuration (no coredata.dat) bring back the machine-file options"""
+    empty = next(c for c in rcases if c['core'] == 'full' and c['cmdl'] == 'empty')
+    first = next(c for c in rcases if c['core'] == 'absent' and c['cmdl'] == 'full')
+    return (not empty['ok'], bool(first['ok'] and first['values'].get('mopt') == maps['old'].get('mopt')))
 
 
 def replay_case(w: World, core: str, cmdl: str, maps: T.Dict[str, T.Dict[str, T.Any]]) -> T.Dict[str, T.Any]:
@@ -454,13 +495,14 @@ def replay_case(w: World, core: str, cmdl: str, maps: T.Dict[str, T.Dict[str, T.
         names = existing_state_files(bdir)
         names = sorted(set(names) | {CORE, CMDL})
         crash = project_state(run, names, maps)
-        state = {'id': f'replay:{core}/{cmdl}', 'kind': 'replay', 'fresh': False, 'failed': False, 'ops': [],
+        state = {'id': f'replay:{core}/{cmdl}', 'kind': 'replay', 'fresh': False, 'failed': False, 'usesM': True, 'usesE': True, 'ops': [],
                  'pre': [{'f': x['f'], 'st': x['st'], 'ver': 'none' if x['st'] == 'dir' else 'old'} for x in crash if x['st'] != 'absent']}
         reconf, ok, fout = follow_up(w, h, run)
         vals = buildoptions(bdir, run) if ok else None
         after = project_state(run, existing_state_files(bdir), maps)
         return {'id': state['id'], 'state': state, 'final': True, 'aborted': False, 'crash': crash, 'reconf': reconf, 'ok': bool(ok and vals is not None),
                 'labels': labels_of(vals, maps, False), 'after': [{'f': x['f'], 'st': x['st']} for x in after],
+                'values': {k: (vals or {}).get(k) for k in ('opt', 'mopt', 'warning_level', 'pkg_config_path')},
                 'followup_tail': fout[-1200:] if not ok else '', 'core': core, 'cmdl': cmdl,
                 'traceback': 'Traceback (most recent call last)' in fout}
     finally:
@@ -481,16 +523,19 @@ def sig_of(v: T.Dict[str, T.Any]) -> str:
 
     def part(stt: str, ver: str) -> str:
         return f'{stt}/{ver}' if stt in ('full', 'partial') else stt
-    return f"{v['clause']}:{v['kind']}:core={part(s['core'], s['corever'])},cmdline={part(s['cmdl'], s['cmdlver'])}"
+    lost = '[' + ','.join(v.get('lost') or []) + ']' if v['clause'] == 'ValuesOldOrNew' else ''
+    return f"{v['clause']}{lost}:{v['kind']}:core={part(s['core'], s['corever'])},cmdline={part(s['cmdl'], s['cmdlver'])}"
 
 
 def tlc_trace(chk: Check, cfg: str, label: str, scripts: T.List[T.Dict[str, T.Any]], cases: T.List[T.Dict[str, T.Any]],
-              strict: bool, expect_states: T.Optional[int]) -> T.List[T.Dict[str, T.Any]]:
+              flags: T.Tuple[bool, bool], expect_states: T.Optional[int]) -> T.List[T.Dict[str, T.Any]]:
+    """flags = (StrictCmdline, FirstRunReadsCmdline): reader behaviour measured on the real code"""
     with scratch('c09-') as d:
         sf, cf = d / 'scripts.json', d / 'cases.json'
         sf.write_text(json.dumps(scripts))
         cf.write_text(json.dumps(cases))
-        env = {'SCRIPT_FILE': str(sf), 'CASE_FILE': str(cf), 'STRICT_CMDLINE': '1' if strict else '0'}
+        env = {'SCRIPT_FILE': str(sf), 'CASE_FILE': str(cf), 'STRICT_CMDLINE': '1' if flags[0] else '0',
+               'FIRSTRUN_READS_CMDLINE': '1' if flags[1] else '0'}
         res = run_tlc(FAM, 'TraceBuildDirCrash', cfg=cfg, env=env, timeout=3600)
         if not res.clean:
             raise MachineryError(f'{cfg} did not complete cleanly:\n' + res.stdout[-2500:])
@@ -507,13 +552,14 @@ def tlc_trace(chk: Check, cfg: str, label: str, scripts: T.List[T.Dict[str, T.An
 def strip_case(c: T.Dict[str, T.Any]) -> T.Dict[str, T.Any]:
     keys = ('id', 'script', 'k', 'final', 'crash', 'reconf', 'ok', 'labels', 'after', 'state', 'aborted')
     out = {k: c[k] for k in keys if k in c}
-    out['labels'] = [{'name': x['name'], 'is': x['is']} for x in c['labels']]
+    out['labels'] = [{'name': x['name'], 'is': x['is'], 'cls': x['cls']} for x in c['labels']]
     return out
 
 
 MC_CFG = '''SPECIFICATION Spec
 CONSTANTS
  StrictCmdline = TRUE
+ FirstRunReadsCmdline = %s
  MaxChunks = %d
  Family = "%s"
  Scripts <- MCScripts
@@ -525,7 +571,7 @@ MC_INVARIANTS = ['SafeIsRecoverable', 'SafeIsOldOrNew', 'AtomicCoreNeverTorn', '
 
 
 def model_check(chk: Check, chunks: int) -> None:
-    cfg = MC_CFG % (chunks, 'all', '\n'.join('INVARIANT ' + i for i in MC_INVARIANTS) + '\nPOSTCONDITION Stats')
+    cfg = MC_CFG % ('FALSE', chunks, 'all', '\n'.join('INVARIANT ' + i for i in MC_INVARIANTS) + '\nPOSTCONDITION Stats')
     res = run_tlc(FAM, 'BuildDirCrash_MC', cfg_text=cfg, timeout=3600, allow_violation=False, coverage=(chk.tier == 'thorough'))
     chk.add_tlc(f'BuildDirCrash_MC[all designs,MaxChunks={chunks}]', res)
     if chk.tier == 'thorough':
@@ -534,13 +580,19 @@ def model_check(chk: Check, chunks: int) -> None:
         for a in ('Step', 'Crash', 'Recover'):
             if cov and not cov.get(a):
                 raise MachineryError(f'action {a} of BuildDirCrash was never taken (vacuous model)')
-    # non-vacuity: the as-built family (cmd_line.txt in place, wipe backup outside the directory) must break
+    if chk.tier == 'thorough':
+        # the same theorems with a first run that reads the machine files back from cmd_line.txt (then a wipe is safe too)
+        cfg = MC_CFG % ('TRUE', chunks, 'all', '\n'.join('INVARIANT ' + i for i in MC_INVARIANTS))
+        res = run_tlc(FAM, 'BuildDirCrash_MC', cfg_text=cfg, timeout=3600, allow_violation=False)
+        chk.add_tlc(f'BuildDirCrash_MC[all designs,MaxChunks={chunks},FirstRunReadsCmdline]', res)
+    # non-vacuity: the legacy family (cmd_line.txt in place, wipe backup outside the directory - the protocol before
+    # fixes a762557 / 3af8f2a) must break in the model
     for inv in ('NoBrick', 'NoLostValues'):
-        cfg = MC_CFG % (chunks, 'asbuilt', 'INVARIANT ' + inv)
+        cfg = MC_CFG % ('FALSE', chunks, 'legacy', 'INVARIANT ' + inv)
         res = run_tlc(FAM, 'BuildDirCrash_MC', cfg_text=cfg, timeout=3600, allow_violation=True)
-        chk.add_tlc(f'BuildDirCrash_MC[as-built,{inv} expected to fail]', res)
+        chk.add_tlc(f'BuildDirCrash_MC[legacy protocol,{inv} expected to fail]', res)
         if res.invariant_violated != inv:
-            raise MachineryError(f'the as-built design family was expected to violate {inv} in the model, TLC says: '
+            raise MachineryError(f'the legacy design family was expected to violate {inv} in the model, TLC says: '
                                  f'{res.invariant_violated!r}\n{res.stdout[-800:]}')
 
 
@@ -594,8 +646,9 @@ def main(chk: Check) -> None:
         cells = [(c, l) for c in ('absent', 'full', 'empty', 'partial') for l in ('absent', 'full', 'empty')]
         rcases = pmap(replay_case, [(w, c, l, rmaps) for c, l in cells])
         probe = next(c for c in rcases if c['core'] == 'full' and c['cmdl'] == 'empty')
-        strict = not probe['ok']
-        chk.extra['cmdline_reader_strict_measured'] = strict
+        strict = reader_flags(rcases, rmaps)
+        chk.extra['cmdline_reader_strict_measured'] = strict[0]
+        chk.extra['first_run_reads_machine_files_measured'] = strict[1]
         bad = tlc_trace(chk, 'TraceBuildDirCrash_Replay.cfg', 'TraceBuildDirCrash[replay]', [], [strip_case(c) for c in rcases],
                         strict, 2 * len(rcases))
         chk.traces += len(rcases)
@@ -721,9 +774,9 @@ def replay(chk: Check, data: T.Dict[str, T.Any]) -> None:
             bdir = build_pre(w, REPLAY_HISTORY, run)
             vals = buildoptions(bdir, run)
             maps = {'old': vals, 'new': vals, 'default': defaults}
-            probe = replay_case(w, 'full', 'empty', maps)
+            flags = reader_flags([replay_case(w, 'full', 'empty', maps), replay_case(w, 'absent', 'full', maps)], maps)
             c = replay_case(w, case['core'], case['cmdl'], maps)
-            bad = tlc_trace(chk, 'TraceBuildDirCrash_Replay.cfg', 'replay', [], [strip_case(c)], not probe['ok'], 2)
+            bad = tlc_trace(chk, 'TraceBuildDirCrash_Replay.cfg', 'replay', [], [strip_case(c)], flags, 2)
             for v in bad:
                 if v['clause'] not in ('CrashStateDiffers', 'ModelDisagrees'):
                     report(chk, v, c, None)
@@ -737,7 +790,8 @@ def replay(chk: Check, data: T.Dict[str, T.Any]) -> None:
         pdef = default_values(w, 'plain')
         run = w.new_run()
         pvals = buildoptions(build_pre(w, REPLAY_HISTORY, run), run)
-        strict = not replay_case(w, 'full', 'empty', {'old': pvals, 'new': pvals, 'default': pdef})['ok']
+        pmaps = {'old': pvals, 'new': pvals, 'default': pdef}
+        strict = reader_flags([replay_case(w, 'full', 'empty', pmaps), replay_case(w, 'absent', 'full', pmaps)], pmaps)
         flagged = tlc_trace(chk, 'TraceBuildDirCrash_Model.cfg', 'replay-model', [rec.script], [], strict, len(rec.script['ops']) + 1)
         for v in flagged:
             if v['clause'] in LAW_CLAUSES:
